@@ -1063,8 +1063,15 @@ def emit(name, imports, defs):
 def main():
     changed = []
     unrecognised = []
+    failed = False
     for extractor in (operator_tables, token_tables, builtin_tables, entry_points, inventory, fingerprints):
-        for name, imports, defs in extractor():
+        try:
+            produced = extractor()
+        except Exception as e:  # noqa: BLE001  (a source file vanished or cannot be scanned at all)
+            print(f"translate: FAILED {extractor.__name__}: {type(e).__name__}: {e}")
+            failed = True
+            continue
+        for name, imports, defs in produced:
             for d in defs:
                 if "unrecognised_source_shape" in d:
                     unrecognised.append(name + ": " + d.strip().split("--", 1)[-1].strip())
@@ -1073,7 +1080,7 @@ def main():
     print("translate: regenerated " + (", ".join(changed) if changed else "nothing (tables unchanged)"))
     for u in unrecognised:
         print("translate: UNRECOGNISED " + u)
-    return 0
+    return 1 if failed else 0
 
 
 if __name__ == "__main__":
